@@ -1243,8 +1243,10 @@ func (e *env) hostileAnte() {
 				e.violate("ante-panic "+class, "the ante handler panicked on input class ["+class+"]: "+res, []string{"# ante " + class})
 			}
 			if strings.Contains(res, "panic") || strings.Contains(res, "runtime error") {
+				// a panic that the deferred Recover of NewAnteHandler turned into ErrPanic is still a panic of the ante handler
 				e.out.Count("hostile-ante-recovered-panic")
 				e.out.Stats.Extra["recovered: "+class] = errKind(res)
+				e.violate("ante-recovered-panic "+class, "the ante handler answered input class ["+class+"] with a recovered panic (ErrPanic): "+res, []string{"# ante " + class})
 			}
 		}
 	}
